@@ -627,6 +627,12 @@ func (c *Checker) reportViolation(v *Violation, seen int) string {
 			ok++
 		}
 	}
+	if wallClockSig(v.Sig) && ok > 0 && ok < 3 {
+		// a verdict that rests on the wall-clock watchdog is the only one that the load of the machine can produce:
+		// an operation that really does not return does not return in any replay
+		fmt.Printf("NOT REPRODUCED: %s (a wall-clock verdict) occurred in %d of 3 replays of the same specification; an operation that does not return fails every replay, so this was the load of the machine; not reported as a violation\n", v.Sig, ok)
+		return ""
+	}
 	if ok == 0 {
 		// neither the minimised nor the original specification shows it again: one seed is one execution here, so
 		// what does not replay at all was the environment (e.g. the wall-clock watchdog on an overloaded machine)
@@ -661,6 +667,11 @@ func (c *Checker) reportViolation(v *Violation, seen int) string {
 		fmt.Println("   ", o)
 	}
 	return path
+}
+
+// wallClockSig: verdicts decided by the wall-clock watchdog (every other verdict is a function of the seed).
+func wallClockSig(sig string) bool {
+	return strings.HasSuffix(sig, "/hang") || strings.HasSuffix(sig, "/hang-depends-on-context") || strings.HasSuffix(sig, "/no-progress/timeout")
 }
 
 func sanitize(s string) string {
